@@ -169,6 +169,15 @@ def signature(m, ev):
     return "handler|%s|%s%s" % (m["what"], why, k)
 
 
+def coarse(m, ev):
+    """Class of an end-to-end mismatch independent of the statement it happened to hit."""
+    import sqlcommon
+    why = ",".join(sorted(m.get("why") or []))
+    c, e = ev.get("c") or {}, ev.get("e") or {}
+    return "e2e-class|%s|client=%s:%s|engine=%s:%s" % (why, c.get("kind"), sqlcommon.msg_class(c.get("msg", "")),
+                                                    e.get("kind"), sqlcommon.msg_class(e.get("msg", "")))
+
+
 def execution_of(lines, line):
     """The reset event that opens the execution containing `line`."""
     i = line
@@ -277,18 +286,28 @@ def judge_e2e(binp, v, lines, mms, sc, clients, stmts, seed, stats):
         ok = any(json.loads(l2[x["line"]])["id"] == ev["id"] and signature(x, json.loads(l2[x["line"]])) == sig for x in mm2)
         how = "sequential"
         if not ok:
+            # a mismatch that needs concurrency is schedule dependent: the whole concurrent run is repeated
+            # (same seed, fresh processes, up to 4 times) and the mismatch counts when one of the same CLASS
+            # (which side failed, error text class, reason) shows up again -- not necessarily on the same statement
             if again is None:
-                rep, out = run_e2e(binp, sc, "e2e-again", clients, stmts, seed)
-                l3, mm3, _ = validate(out)
-                again = {signature(x, json.loads(l3[x["line"]])) for x in mm3}
-            ok = sig in again
+                again = set()
+                for k in range(4):
+                    rep, out = run_e2e(binp, sc, "e2e-again%d" % k, clients, stmts, seed)
+                    l3, mm3, _ = validate(out)
+                    for x in mm3:
+                        e3 = json.loads(l3[x["line"]])
+                        again.add(signature(x, e3))
+                        again.add(coarse(x, e3))
+                    if coarse(m, ev) in again:
+                        break
+            ok = sig in again or coarse(m, ev) in again
             how = "concurrent"
         if not ok:
             raise lib.Inconclusive("end-to-end mismatch did not reproduce: %s %s" % (sig, ev.get("sql")))
         brief = {"sql": ev["sql"], "proto": ev["proto"], "client": {k: x for k, x in ev["c"].items() if k != "rows"},
                  "engine": {k: x for k, x in ev["e"].items() if k != "rows"}, "client_rows": len(ev["c"]["rows"]),
                  "engine_rows": len(ev["e"]["rows"]), "why": m.get("why"), "reproduced": how}
-        v.add(sig, brief)
+        v.add(sig if how == "sequential" else sig + "|" + coarse(m, ev), brief)
         stats["confirmed"] += 1
 
 
@@ -376,7 +395,24 @@ def check(tier):
             estates += st
             races += erep["race_reports"]
             if erep["race_reports"]:
-                lib.log("[C35] race detector report(s) in the end-to-end run (informational):\n" + erep["race_head"])
+                # The binary runs under the Go race detector (that is how the real server is executed here). A
+                # report whose frames are in the server package means concurrent clients share unsynchronised
+                # state on the path that delivers their results; it counts once it shows up again in a fresh
+                # process. Reports elsewhere stay informational (C36 owns the engine-level clause).
+                import re as _re
+                frames = _re.findall(r"go-mysql-server/(server\.[\w.()*]+)\(", erep["race_head"])
+                if frames:
+                    again = 0
+                    for k in range(3):
+                        r2, _ = run_e2e(binp, sc, "e2e%d-race%d" % (i, k), clients, stmts, seed)
+                        if r2["race_reports"] and _re.search(r"go-mysql-server/server\.", r2["race_head"]):
+                            again += 1
+                            break
+                    if not again:
+                        raise lib.Inconclusive("race report in the server package did not reproduce:\n" + erep["race_head"])
+                    v.add("e2e|race|" + ">".join(dict.fromkeys(frames[:3])), {"report": erep["race_head"]})
+                else:
+                    lib.log("[C35] race detector report(s) outside the server package (informational):\n" + erep["race_head"])
             esamples += erep["samples"][:1]
             for k, n in erep["extra"]["by_tag"].items():
                 by_tag[k] = by_tag.get(k, 0) + n
